@@ -26,6 +26,9 @@ type EnvOpts struct {
 	// Dial is consulted for the n-th dial (0-based) of the proxy's transport to addr; a non-nil error is
 	// returned to the transport (e.g. Refused(addr)); nil connects to the origin.
 	Dial func(n int, addr string) error
+	// FailedDialConn (optional) supplies the connection value a FAILING dial returns next to its error (dial
+	// functions written around constructors return typed-nil pointers, or a connection they already closed).
+	FailedDialConn func(n int, addr string) net.Conn
 }
 
 // Env is one REAL martian proxy (NewProxy(), default http.Transport) between a client-side listener and a
@@ -106,6 +109,9 @@ func (e *Env) dial(network, addr string) (net.Conn, error) {
 	e.mu.Unlock()
 	if e.opts.Dial != nil {
 		if err := e.opts.Dial(n, addr); err != nil {
+			if e.opts.FailedDialConn != nil {
+				return e.opts.FailedDialConn(n, addr), err
+			}
 			return nil, err
 		}
 	}
